@@ -275,6 +275,38 @@ theorem segments_stay_disjoint_on_grid (segs : List (Int → Int → K)) (rnd : 
     obtain ⟨m0, _, rfl⟩ := hm
     simp [nearestMask, hout]
 
+/-- the mask stays binary with its segment structure, on the regenerated grid: every resampled layer (`nearestMask`: nearest source pixel
+of the regenerated coordinate, binarised, 0 on the rim) takes only the values 0 and 1, the number of layers is kept, and at every
+output sample whose coordinate lies inside the input array the union of disjoint segments is the resampled union (1 iff some segment
+covers the nearest source pixel) -/
+theorem resampled_layers_binary_count_union (segs : List (Int → Int → K)) (rnd : K → Int) (S0 S1 n0 n1 : Int) (s : K)
+    (hdis : ∀ a b, ((segs.filter fun m => decide (m a b ≠ 0)).length ≤ 1)) (i j : Int) :
+    let segs' := segs.map fun m => nearestMask (fun k => (k : K)) (2 : K) rnd S0 S1 n0 n1 s m
+    (∀ m ∈ segs', m i j = 0 ∨ m i j = 1) ∧ segs'.length = segs.length ∧
+    (insideB (fun k => (k : K)) (2 : K) S0 S1 n0 n1 s i j = true →
+      (segs'.map fun m => m i j).sum =
+        if (segs.filter fun m => decide (m (rnd (gridRow (fun k => (k : K)) (2 : K) S0 S1 n0 n1 s i))
+              (rnd (gridCol (fun k => (k : K)) (2 : K) S0 S1 n0 n1 s j)) ≠ 0)).length = 0 then 0 else 1) := by
+  intro segs'
+  refine ⟨?_, by simp [segs'], ?_⟩
+  · intro m hm
+    simp only [segs', List.mem_map] at hm
+    obtain ⟨m0, _, rfl⟩ := hm
+    simp only [nearestMask]
+    split_ifs with h
+    · by_cases h0 : m0 (rnd (gridRow (fun k => (k : K)) (2 : K) S0 S1 n0 n1 s i)) (rnd (gridCol (fun k => (k : K)) (2 : K) S0 S1 n0 n1 s j)) = 0 <;>
+        simp [binarise, h0]
+    · exact Or.inl rfl
+  · intro hin
+    have h := (segments_stay_disjoint segs (fun a => rnd (gridRow (fun k => (k : K)) (2 : K) S0 S1 n0 n1 s a))
+      (fun b => rnd (gridCol (fun k => (k : K)) (2 : K) S0 S1 n0 n1 s b)) hdis i j).2
+    rw [← h]
+    simp only [segs', List.map_map]
+    congr 1
+    apply List.map_congr_left
+    intro m _
+    simp [nearestMask, hin]
+
 /-- Plane-level identity: rescaling a PLANE by 1 keeps the pixel scale on both axes, leaves amplitude (factor 1) and OPD factors at 1,
 keeps the shape, and interpolates every sample of every array at its own integer coordinate on the regenerated grid — so with an
 interpolator that reproduces samples at integer coordinates the returned plane has the attributes of the original -/
